@@ -55,6 +55,15 @@ theories/Onto/Update.vos theories/Onto/Update.vok theories/Onto/Update.required_
 theories/Onto/Update_proofs.vo theories/Onto/Update_proofs.glob theories/Onto/Update_proofs.v.beautified theories/Onto/Update_proofs.required_vo: theories/Onto/Update_proofs.v theories/Base/Prelude.vo theories/Onto/Tree.vo theories/Onto/Kinds.vo theories/Onto/Cmp_proofs.vo theories/Onto/Update.vo
 theories/Onto/Update_proofs.vio: theories/Onto/Update_proofs.v theories/Base/Prelude.vio theories/Onto/Tree.vio theories/Onto/Kinds.vio theories/Onto/Cmp_proofs.vio theories/Onto/Update.vio
 theories/Onto/Update_proofs.vos theories/Onto/Update_proofs.vok theories/Onto/Update_proofs.required_vos: theories/Onto/Update_proofs.v theories/Base/Prelude.vos theories/Onto/Tree.vos theories/Onto/Kinds.vos theories/Onto/Cmp_proofs.vos theories/Onto/Update.vos
+theories/Onto/Track.vo theories/Onto/Track.glob theories/Onto/Track.v.beautified theories/Onto/Track.required_vo: theories/Onto/Track.v theories/Base/Prelude.vo
+theories/Onto/Track.vio: theories/Onto/Track.v theories/Base/Prelude.vio
+theories/Onto/Track.vos theories/Onto/Track.vok theories/Onto/Track.required_vos: theories/Onto/Track.v theories/Base/Prelude.vos
+theories/Onto/Track_proofs.vo theories/Onto/Track_proofs.glob theories/Onto/Track_proofs.v.beautified theories/Onto/Track_proofs.required_vo: theories/Onto/Track_proofs.v theories/Base/Prelude.vo theories/Onto/Track.vo
+theories/Onto/Track_proofs.vio: theories/Onto/Track_proofs.v theories/Base/Prelude.vio theories/Onto/Track.vio
+theories/Onto/Track_proofs.vos theories/Onto/Track_proofs.vok theories/Onto/Track_proofs.required_vos: theories/Onto/Track_proofs.v theories/Base/Prelude.vos theories/Onto/Track.vos
+theories/Generated/C12_gen.vo theories/Generated/C12_gen.glob theories/Generated/C12_gen.v.beautified theories/Generated/C12_gen.required_vo: theories/Generated/C12_gen.v theories/Base/Prelude.vo
+theories/Generated/C12_gen.vio: theories/Generated/C12_gen.v theories/Base/Prelude.vio
+theories/Generated/C12_gen.vos theories/Generated/C12_gen.vok theories/Generated/C12_gen.required_vos: theories/Generated/C12_gen.v theories/Base/Prelude.vos
 theories/Parse/Dispatch.vo theories/Parse/Dispatch.glob theories/Parse/Dispatch.v.beautified theories/Parse/Dispatch.required_vo: theories/Parse/Dispatch.v theories/Base/Prelude.vo
 theories/Parse/Dispatch.vio: theories/Parse/Dispatch.v theories/Base/Prelude.vio
 theories/Parse/Dispatch.vos theories/Parse/Dispatch.vok theories/Parse/Dispatch.required_vos: theories/Parse/Dispatch.v theories/Base/Prelude.vos
@@ -82,6 +91,9 @@ theories/Props/C09.vos theories/Props/C09.vok theories/Props/C09.required_vos: t
 theories/Props/C11.vo theories/Props/C11.glob theories/Props/C11.v.beautified theories/Props/C11.required_vo: theories/Props/C11.v theories/Base/Prelude.vo theories/Onto/Tree.vo theories/Onto/Kinds.vo theories/Onto/Cmp_proofs.vo theories/Onto/Update.vo theories/Onto/Update_proofs.vo
 theories/Props/C11.vio: theories/Props/C11.v theories/Base/Prelude.vio theories/Onto/Tree.vio theories/Onto/Kinds.vio theories/Onto/Cmp_proofs.vio theories/Onto/Update.vio theories/Onto/Update_proofs.vio
 theories/Props/C11.vos theories/Props/C11.vok theories/Props/C11.required_vos: theories/Props/C11.v theories/Base/Prelude.vos theories/Onto/Tree.vos theories/Onto/Kinds.vos theories/Onto/Cmp_proofs.vos theories/Onto/Update.vos theories/Onto/Update_proofs.vos
+theories/Props/C12.vo theories/Props/C12.glob theories/Props/C12.v.beautified theories/Props/C12.required_vo: theories/Props/C12.v theories/Base/Prelude.vo theories/Onto/Track.vo theories/Onto/Track_proofs.vo theories/Generated/C12_gen.vo
+theories/Props/C12.vio: theories/Props/C12.v theories/Base/Prelude.vio theories/Onto/Track.vio theories/Onto/Track_proofs.vio theories/Generated/C12_gen.vio
+theories/Props/C12.vos theories/Props/C12.vok theories/Props/C12.required_vos: theories/Props/C12.v theories/Base/Prelude.vos theories/Onto/Track.vos theories/Onto/Track_proofs.vos theories/Generated/C12_gen.vos
 theories/Props/C14.vo theories/Props/C14.glob theories/Props/C14.v.beautified theories/Props/C14.required_vo: theories/Props/C14.v theories/Base/Prelude.vo theories/Parse/Dispatch.vo theories/Parse/Dispatch_proofs.vo
 theories/Props/C14.vio: theories/Props/C14.v theories/Base/Prelude.vio theories/Parse/Dispatch.vio theories/Parse/Dispatch_proofs.vio
 theories/Props/C14.vos theories/Props/C14.vok theories/Props/C14.required_vos: theories/Props/C14.v theories/Base/Prelude.vos theories/Parse/Dispatch.vos theories/Parse/Dispatch_proofs.vos
